@@ -108,6 +108,10 @@ ArgsFor(op) ==
            {WithBody([A0 EXCEPT !.exp = e, !.sets = s, !.dels = d, !.db = db, !.pres = p, !.cb = "apply"], b) :
                e \in {"0", "E1"}, s \in SetChoices, d \in {NoDels, Dels1("_t")}, db \in BOOLEAN,
                p \in BOOLEAN, b \in {"", "J1", "J3"}}
+           \* the caller supplies the version to start from (current / with an outdated CAS); the callback asks once to be called again
+           \cup {WithBody([A0 EXCEPT !.sets = s, !.db = db, !.cb = cb], b) :
+                    s \in {Sets1("_s", XA("x1", FALSE, FALSE)), Sets1("u", XA("x1", TRUE, TRUE))}, db \in BOOLEAN,
+                    cb \in {"apply-cur", "apply-stale", "retry"}, b \in {"", "J1"}}
            \* the callback returns a body only
            \cup {WithBody([A0 EXCEPT !.exp = e, !.pres = p, !.cb = "apply"], b) : e \in {"0", "E1"}, p \in BOOLEAN, b \in {"J1", "J3"}}
       [] op = "DeleteWithXattrs" -> {[A0 EXCEPT !.dels = d] : d \in DelChoices \cup {NoDels}}
